@@ -147,7 +147,7 @@ PROPS["C16"] = {
 }
 
 PROPS["C17"] = {
-    "modules": ["SamlVerif.Props.C17", "SamlVerif.Props.TransMiddleware", "SamlVerif.Props.PureSamlsp"],
+    "modules": ["SamlVerif.Props.C17", "SamlVerif.Props.TransMiddleware", "SamlVerif.Props.TransSession", "SamlVerif.Props.PureSamlsp"],
     "trusted_base": ["modelled, not verified: net/http cookie parsing and Set-Cookie semantics, the SAML response validation itself (abstracted to valid/InResponseTo here; it is C01-C04's subject), golang-jwt (see C16)",
                      "cookie names are abstracted to tracking(index) / session / other (strings.HasPrefix / TrimPrefix with the fixed prefix \"saml_\")"],
     "assumptions": ["browser jars hold at most one cookie per name (hypothesis of the completion theorems; the refusal/binding theorems hold for arbitrary cookie lists)"],
@@ -271,7 +271,7 @@ for pid, fns in {"C01": "parseResponse / parseAssertion / parseEncryptedAssertio
                  "C18": "validateLogoutResponse / ValidateLogoutResponseForm and ValidateLogoutResponseRedirect (from the signature check on) / the trust configuration of validateSignature",
                  "C08": "IdpAuthnRequest.getSPEncryptionCert (the selection of the certificate string, up to its decoding)",
                  "C10": "xmlenc appendPadding / stripPadding / the framing of CBC.Decrypt", "C11": "xmlenc stripPadding / the framing of CBC.Decrypt",
-                 "C16": "samlsp CookieSessionProvider.GetSession",
+                 "C16": "samlsp CookieSessionProvider.GetSession / JWTTrackedRequestCodec.Decode (the claim checks)",
                  "C12": "samlsp Middleware.HandleStartAuthFlow (the choice of binding and location) / ServiceProvider.GetSSOBindingLocation / GetSLOBindingLocation",
                  "C13": "samlsp Middleware.HandleStartAuthFlow (the choice of binding and location)",
                  "C06": "IdentityProvider.ServeSSO (the gate before the assertion is made)",
